@@ -332,17 +332,31 @@ def lookup_term(l):
     return "mkLk %s %s %s" % (vlib.coq_bool(l["err"]), vlib.coq_bool(l["same"]), vlib.coq_bool(built))
 
 
-def case_term(cid, kind, trace, lookups):
-    ops, obs = [], []
-    for e in trace:
+class EventTable:
+    """names every distinct (op, observation) pair once: `Definition ev12 := (OGet 1 true None, IVal None []).`
+    (elaborating a shared name is several times cheaper than elaborating the term again in every case)"""
+
+    def __init__(self):
+        self.names = {}
+        self.defs = []
+
+    def name(self, e):
         o, i = ev_terms(e)
-        ops.append(o)
-        obs.append(i)
-    return "mkCase %d%%N %d %s %s %s" % (cid, kind, vlib.coq_list(ops), vlib.coq_list(obs),
+        key = "(%s, %s)" % (o, i)
+        n = self.names.get(key)
+        if n is None:
+            n = "ev%d" % len(self.names)
+            self.names[key] = n
+            self.defs.append("Definition %s : rop * iobs := %s." % (n, key))
+        return n
+
+
+def case_term(tbl, cid, kind, trace, lookups):
+    return "mkCaseE %d%%N %d %s %s" % (cid, kind, vlib.coq_list(tbl.name(e) for e in trace),
                                       vlib.coq_list(lookup_term(l) for l in lookups))
 
 
-def evaluate(ctx, binp, cases, tag, shard=250):
+def evaluate(ctx, binp, cases, tag, shard=1000):
     """cases: list of script / e2e descriptions. Runs the implementation, then Coq.
     Returns (by_id, M, V, nontrivial, conforming, strict)."""
     scripts = [{"id": i, "ops": c["ops"]} for i, c in enumerate(cases) if c["kind"] == "script"]
@@ -350,21 +364,21 @@ def evaluate(ctx, binp, cases, tag, shard=250):
     rc, res, raw = vlib.run_json(binp, {"scripts": scripts, "e2e": e2e}, timeout=1800)
     if res is None:
         raise vlib.GoBuildError("./cmd/c04 (run)", raw[-3000:])
-    by_id, terms = {}, []
+    by_id, terms, tbl = {}, [], EventTable()
     for o in res["scripts"]:
         c = cases[o["id"]]
         cid = o["id"] + 1
         by_id[cid] = {"case": c, "executed": o["trace"], "panic": o["panic"]}
-        tr = o["trace"] if not o["panic"] else o["trace"] + [{"op": "ic", "n": 999999, "b": True}]  # a panic never matches
-        terms.append(case_term(cid, 0, tr, []))
+        tr = o["trace"] if not o["panic"] else o["trace"] + [{"op": "ic", "n": 4999, "b": True}]  # a panic never matches
+        terms.append(case_term(tbl, cid, 0, tr, []))
     for o in res["e2e"]:
         c = cases[o["id"]]
         cid = o["id"] + 1
         by_id[cid] = {"case": c, "executed": o["trace"], "names": o["names"], "lookups": o["lookups"],
                       "run_failed": o["runErr"], "traced": o["traced"], "panic": o["panic"]}
-        tr = o["trace"] if not o["panic"] else o["trace"] + [{"op": "ic", "n": 999999, "b": True}]
-        terms.append(case_term(cid, 1, tr, o["lookups"]))
-    out = vlib.coq_eval_sharded(ctx, "cases_c04_" + tag, HEADER, terms,
+        tr = o["trace"] if not o["panic"] else o["trace"] + [{"op": "ic", "n": 4999, "b": True}]
+        terms.append(case_term(tbl, cid, 1, tr, o["lookups"]))
+    out = vlib.coq_eval_sharded(ctx, "cases_c04_" + tag, HEADER + "\n".join(tbl.defs) + "\n", terms,
                                 {"M": "mismatches", "V": "violations", "NT": "count_nontrivial", "CF": "count_conforming"},
                                 shard=shard)
     cf = out["CF"]
@@ -455,9 +469,11 @@ def run(ctx):
         c = r.get("case", {}).get("case")
         cases = [c] if c else cases
     else:
-        ns, ne = (2000, 160) if ctx.quick() else (30000, 1500)
+        ns, ne = (4000, 300) if ctx.quick() else (30000, 1500)
         cases += [gen_script(rng) for _ in range(ns)]
         cases += [gen_e2e(rng) for _ in range(ne)]
+        if ctx.quick():  # the smallest scripts, all of them (the thorough tier goes further, below)
+            cases += list(enum_scripts(range(1, 4)))
     by_id, M, V, nt, ncf, nstrict = evaluate(ctx, binp, cases, "main")
     ctx.log("cases=%d nontrivial=%d conforming=%d strict=%d mismatches=%d violations=%d" % (
         len(cases), nt, ncf, nstrict, len(M), len(V)))
@@ -482,7 +498,7 @@ def run(ctx):
 
         def one(arg):
             k, batch = arg
-            b2, M2, V2, _, _, _ = evaluate(ctx, binp, batch, "exh%d" % k, shard=2500)
+            b2, M2, V2, _, _, _ = evaluate(ctx, binp, batch, "exh%d" % k, shard=8000)
             return k, len(batch), {i: b2[i] for i in M2 + V2}, M2, V2
 
         with ThreadPoolExecutor(max_workers=2) as ex:
